@@ -16,6 +16,7 @@ import (
 	"time"
 
 	"github.com/conduitio/conduit/pkg/connector"
+	"github.com/conduitio/conduit/pkg/foundation/verifhook"
 	"github.com/conduitio/conduit/pkg/pipeline"
 	"github.com/conduitio/conduit/pkg/processor"
 	"github.com/conduitio/conduit/pkg/provisioning/config"
@@ -57,6 +58,7 @@ type Step struct {
 	Err   string `json:"err,omitempty"`
 	Force bool   `json:"force,omitempty"`
 	Ms    int    `json:"ms,omitempty"`
+	Steps []Step `json:"steps,omitempty"` // OnHook: what the environment does at that scheduling point
 }
 
 type Scenario struct {
@@ -113,7 +115,9 @@ type runner struct {
 
 	faultMu sync.Mutex
 	opCount map[string]int
-	began   time.Time // start of the scenario: all bounded waits together stay below the child-process timeout
+	hookMu  sync.Mutex
+	hooks   []*hookReg
+	began   time.Time        // start of the scenario: all bounded waits together stay below the child-process timeout
 	txKeys  map[int][]string // keys written by each transaction (for commit faults with a key)
 	armed   bool
 	gates   []*storeGate
@@ -157,7 +161,44 @@ func (r *runner) scopeOf(parent string) string {
 	return "all"
 }
 
+// hookReg: at the N-th passage of a scheduling point of the engine (verifhook.At, compiled in with the build tag
+// verif) the environment performs Steps - in the engine's own goroutine, which waits meanwhile: a deterministic
+// interleaving "between the check and the act".
+type hookReg struct {
+	point string
+	nth   int
+	steps []Step
+	seen  int
+	fired bool
+}
+
+func (r *runner) onHook(point string) {
+	r.hookMu.Lock()
+	var reg *hookReg
+	for _, h := range r.hooks {
+		if h.point == point && !h.fired {
+			h.seen++
+			if h.seen == h.nth {
+				h.fired = true
+				reg = h
+			}
+			break
+		}
+	}
+	r.hookMu.Unlock()
+	if reg == nil {
+		return
+	}
+	r.log.Add("HookFired", "point", point)
+	for i, st := range reg.steps {
+		r.step(1000+i, st)
+	}
+	r.log.Add("HookDone", "point", point)
+}
+
 func (r *runner) run() {
+	verifhook.Set(r.onHook)
+	defer verifhook.Set(nil)
 	sc := r.sc
 	if sc.Engine == "" {
 		sc.Engine = "v1"
@@ -718,6 +759,14 @@ func (r *runner) step(i int, st Step) {
 		markReleased(g)
 		g.release <- st.Err
 		r.settle()
+	case "OnHook":
+		nth := st.N
+		if nth <= 0 {
+			nth = 1
+		}
+		r.hookMu.Lock()
+		r.hooks = append(r.hooks, &hookReg{point: st.Tag, nth: nth, steps: st.Steps})
+		r.hookMu.Unlock()
 	case "Sleep":
 		time.Sleep(time.Duration(st.Ms) * time.Millisecond)
 	case "Settle":
